@@ -112,7 +112,7 @@ def split_tuple_lines(out: str):
     return res
 
 
-def validate_traces(recs, name: str, *, prop='ALL', module='TraceHands.tla', cfg='TraceHands.cfg', jobs=16, timeout=1800,
+def validate_traces(recs, name: str, *, prop='ALL', module='TraceHands.tla', cfg='TraceHands.cfg', jobs=16, timeout=1800, heap='3g',
                     max_bytes=12_000_000, envvar='TRACE', env=None):
     """Run the trace spec over the records.  Returns dict(done={tid: steps}, mismatches=[(tid, step, clause, text)],
     states, transitions, wall, outputs)."""
@@ -128,7 +128,7 @@ def validate_traces(recs, name: str, *, prop='ALL', module='TraceHands.tla', cfg
         path, tids = shards[j]
         outs = ''
         for attempt in range(12):
-            rc, out, wall = run_tlc(module, cfg, dict(env or {}, **{envvar: path, 'PROP': prop}), os.path.join(d, f'meta_{j}_{attempt}'), timeout=timeout)
+            rc, out, wall = run_tlc(module, cfg, dict(env or {}, **{envvar: path, 'PROP': prop}), os.path.join(d, f'meta_{j}_{attempt}'), timeout=timeout, heap=heap)
             with open(os.path.join(d, f'tlc_{j}_{attempt}.log'), 'w') as f:
                 f.write(out)
             if 'Model checking completed' in out or not tids:
